@@ -432,6 +432,42 @@ Definition spec_matmul_vals (add mul : V -> V -> V) (ς : sstate) (a b : sten) :
   | _, _ => None
   end.
 
+(* general tensor contraction (C09): result axes = the free axes of a (in order) then those of b;
+   entry = sum over the box of the contracted extents of the products.  None = refused. *)
+Fixpoint pos_in (j : Z) (l : list Z) (i : nat) : option nat :=
+  match l with [] => None | x :: r => if x =? j then Some i else pos_in j r (S i) end.
+Fixpoint place_go (i : Z) (n : nat) (axes kc free : list Z) : list Z :=
+  match n with
+  | O => []
+  | S n' =>
+    match pos_in i axes O with
+    | Some p => nth p kc 0 :: place_go (i + 1) n' axes kc free
+    | None => match free with
+              | f :: fr => f :: place_go (i + 1) n' axes kc fr
+              | [] => 0 :: place_go (i + 1) n' axes kc []
+              end
+    end
+  end.
+Definition spec_tensormul_vals (add mul : V -> V -> V) (ς : sstate) (a b : sten) (axesA axesB : list Z)
+  : option (list Z * list V) :=
+  let sa := s_shape a in let sb := s_shape b in
+  let na := length sa in let nb := length sb in
+  let okA := forallb (fun i => (0 <=? i) && (i <? Z.of_nat na)) axesA && nodup_z axesA in
+  let okB := forallb (fun i => (0 <=? i) && (i <? Z.of_nat nb)) axesB && nodup_z axesB in
+  if negb okA || negb okB || negb (Nat.eqb (length axesA) (length axesB)) then None else
+  let ka := map (fun ax => znth 0 sa ax) axesA in
+  let kb := map (fun ax => znth 0 sb ax) axesB in
+  if negb (list_eqb ka kb) then None else
+  let fa := map (fun i => znth 0 sa i) (filter (fun i => negb (existsb (Z.eqb i) axesA)) (zseq 0 na)) in
+  let fb := map (fun i => znth 0 sb i) (filter (fun i => negb (existsb (Z.eqb i) axesB)) (zseq 0 nb)) in
+  let rsh := fa ++ fb in
+  let vals := map (fun c =>
+                     let ca := firstn (length fa) c in let cb := skipn (length fa) c in
+                     fold_left add (map (fun kc => mul (val_at ς a (place_go 0 na axesA kc ca))
+                                                       (val_at ς b (place_go 0 nb axesB kc cb))) (coords ka)) vzero)
+                  (coords rsh) in
+  Some (match rsh with [] => [1] | _ => rsh end, vals).
+
 Definition spec_matvec_vals (add mul : V -> V -> V) (ς : sstate) (a b : sten) : option (list Z * list V) :=
   match s_shape a with
   | [m; n] =>
